@@ -14,6 +14,15 @@ BASELINE_OFF = ('cd /repo && env -u ELECTRUMX_VERIF /venv/bin/python -m pytest -
 _IDX_NOTE = ('Trusted: the fake plyvel stand-in (bound to real LevelDB by the conformance run), '
              'the reference indexer; only the default schedule is used here (schedules: C06/C07).')
 CHECKS = {
+    'C15': ('exploration',
+            'exhaustive bounded enumeration of reorg limits x sync trajectories x restarts x fork depths on the real block processor',
+            'Reorg limit in {1,2,3,5,50} x daemon extension at every n-th scheduler step of the sync '
+            '(or block by block) x clean restart x natural/forced reorg of depth limit-1, limit, '
+            'limit+1: within the window the reorg must succeed and equal the reference and a fresh '
+            'server; beyond it it may only stop with the no-undo-information error leaving an exact '
+            'index; after a restart no undo row lies below the window.',
+            _IDX_NOTE + ' Undo rows are recognised by their key format (the property names this '
+            'observation point).', '3/C15'),
     'C19': ('exploration',
             'exhaustive enumeration of peer populations x shuffle outcomes and of feature dictionaries',
             'Product of per-slot peer states (shared /16 and /56 buckets, private addresses, resolved '
